@@ -215,7 +215,7 @@ static Result run_c17(const Case &c) {
             for (int i = 0; i < 64; i++) { void *h2 = dlopen(so, RTLD_LAZY | RTLD_NOLOAD); if (!h2) break; dlclose(h2); dlclose(h2); }
             r.fail(std::string("plugin ") + so + " is still loaded after every instance was destroyed: a dlopen reference leaked (failed init path)"); }
     }
-    if (__lsan_do_recoverable_leak_check() != 0) r.fail("LeakSanitizer: memory still allocated after the faulted workload");
+    if (__lsan_do_recoverable_leak_check() != 0 && (r.fatal = true)) r.fail("LeakSanitizer: memory still allocated after the faulted workload");
     r.cls(std::string("be_") + be_name(g.backend));
     for (size_t i = 0; i + 2 < fl.size() + 0; i += 3) r.cls(std::string("fault_") + OPIN[fl[i] % OPI_N]);
     r.nontrivial = injected_total > 0;
